@@ -7,7 +7,7 @@ package main
 // without else ("if <condition>"); plus the options appended in the call expression itself. When the slice is a
 // parameter of the function, the rule follows every call of that function inside the package and reports one row per
 // caller. Anything else (a slice built in a nested block, a helper returning options, a second assignment) is
-// reported as status "unrecognised:<file:line>", never skipped.
+// reported as status "unrecognised" (position in the row comment), never skipped.
 // Rows carry no line numbers.
 
 import (
@@ -114,6 +114,14 @@ func assigns(n ast.Node, name string) bool {
 	return found
 }
 
+// unrec: an option status the rule cannot read; the position goes to stderr and into the row comment
+var unrecAt []string
+
+func unrec(pos string) string {
+	unrecAt = append(unrecAt, pos)
+	return "unrecognised"
+}
+
 type vsPkg struct {
 	fset  *token.FileSet
 	funcs map[string]*ast.FuncDecl
@@ -134,7 +142,7 @@ func (p *vsPkg) optsAt(fd *ast.FuncDecl, e ast.Expr, at token.Pos, depth int) []
 				if n, ok := optionCall(a); ok {
 					extra = append(extra, n+"=always")
 				} else {
-					extra = append(extra, "unrecognised:"+pos(a))
+					extra = append(extra, unrec(pos(a)))
 				}
 			}
 			var out [][]string
@@ -143,14 +151,14 @@ func (p *vsPkg) optsAt(fd *ast.FuncDecl, e ast.Expr, at token.Pos, depth int) []
 			}
 			return out
 		}
-		return [][]string{{"unrecognised:" + pos(x)}}
+		return [][]string{{unrec(pos(x))}}
 	case *ast.Ident:
 		name := x.Name
 		// a parameter: follow the callers
 		for i, f := range flatParams(fd) {
 			if f == name {
 				if depth <= 0 {
-					return [][]string{{"unrecognised:" + pos(x)}}
+					return [][]string{{unrec(pos(x))}}
 				}
 				var out [][]string
 				names := make([]string, 0, len(p.funcs))
@@ -174,7 +182,7 @@ func (p *vsPkg) optsAt(fd *ast.FuncDecl, e ast.Expr, at token.Pos, depth int) []
 					})
 				}
 				if len(out) == 0 {
-					return [][]string{{"unrecognised:" + pos(x)}}
+					return [][]string{{unrec(pos(x))}}
 				}
 				return out
 			}
@@ -196,7 +204,7 @@ func (p *vsPkg) optsAt(fd *ast.FuncDecl, e ast.Expr, at token.Pos, depth int) []
 						if n, ok := optionCall(a); ok {
 							out = append(out, n+"=always")
 						} else {
-							out = append(out, "unrecognised:"+pos(a))
+							out = append(out, unrec(pos(a)))
 						}
 					}
 					continue
@@ -204,7 +212,7 @@ func (p *vsPkg) optsAt(fd *ast.FuncDecl, e ast.Expr, at token.Pos, depth int) []
 				for _, l := range s.Lhs {
 					if id, ok := l.(*ast.Ident); ok && id.Name == name {
 						if declared {
-							out = append(out, "unrecognised:"+pos(s))
+							out = append(out, unrec(pos(s)))
 						}
 						declared = true
 					}
@@ -239,11 +247,11 @@ func (p *vsPkg) optsAt(fd *ast.FuncDecl, e ast.Expr, at token.Pos, depth int) []
 				if ok {
 					out = append(out, found...)
 				} else {
-					out = append(out, "unrecognised:"+pos(s))
+					out = append(out, unrec(pos(s)))
 				}
 			default:
 				if assigns(st, name) { // reading the slice (e.g. handing `append(opts, …)` to a callee) does not change it
-					out = append(out, "unrecognised:"+pos(st))
+					out = append(out, unrec(pos(st)))
 				}
 			}
 		}
@@ -267,7 +275,7 @@ func (p *vsPkg) optsAt(fd *ast.FuncDecl, e ast.Expr, at token.Pos, depth int) []
 		}
 		return [][]string{out}
 	}
-	return [][]string{{"unrecognised:" + pos(e)}}
+	return [][]string{{unrec(pos(e))}}
 }
 
 func flatParams(fd *ast.FuncDecl) []string {
@@ -332,7 +340,7 @@ func extractVisitSites(repo string) (string, error) {
 					if nm, ok := optionCall(a); ok {
 						o = append(o, nm+"=always")
 					} else {
-						o = append(o, "unrecognised:"+where)
+						o = append(o, unrec(where))
 					}
 				}
 				rows = append(rows, visitRow{fn: fd.Name.Name, opts: o, pos: where})
@@ -373,6 +381,9 @@ func extractVisitSites(repo string) (string, error) {
 			sep = ""
 		}
 		fmt.Fprintf(&b, "  ⟨%s, %s, [%s]⟩%s  -- %s\n", rsLeanStr(r.fn), rsLeanStr(r.via), strings.Join(as, ", "), sep, r.pos)
+	}
+	if len(unrecAt) > 0 {
+		fmt.Fprintf(&b, "-- unrecognised shapes at: %s\n", strings.Join(unrecAt, " "))
 	}
 	b.WriteString("]\n\nend KinModel.Gen\n")
 	return b.String(), nil
